@@ -3158,3 +3158,70 @@ func c13R19(c *Ctx, r *Report) {
 	}
 	r.Floor(rule, n, 8, "cvt* templates")
 }
+
+// ---- C02.R11: float -> sub-word integer casts are reduced to the declared width natively ----------------------
+
+func init() {
+	lateInits = append(lateInits, func() {
+		props["C02"].Quick = append(props["C02"].Quick, c02R11)
+		props["C01"].Quick = append(props["C01"].Quick, c02R11)
+		props["C02"].Explanation += " (R11) in the QBE emitCast the float-to-integer branch defines its result, on every path, through emitSubWordWrap or emitFloatToUnsigned, or on the false edge of a test for the 8- and 16-bit widths — as the wasm emitCast wraps every i32-represented target (C01.R3)."
+	})
+}
+
+func c02R11(c *Ctx, r *Report) {
+	const rule = "C02.R11"
+	r.Describe(rule, "qbe emitCast: in the branch `isFloat(from) && isInteger(to)`, every path to `g.valueTypes[c.Result] = …` has called emitSubWordWrap / emitFloatToUnsigned or crossed the false edge of a test that mentions both 8 and 16")
+	fn := c.LookupFn(pkgQBE, "(*Generator).emitCast")
+	wrap := c.LookupFn(pkgQBE, "(*Generator).emitSubWordWrap")
+	f2u := c.LookupFn(pkgQBE, "(*Generator).emitFloatToUnsigned")
+	if !r.Anchor(rule, fn != nil && wrap != nil && f2u != nil, "qbe emitCast / emitSubWordWrap / emitFloatToUnsigned") {
+		return
+	}
+	info := fn.Info()
+	var branch *ast.IfStmt
+	ast.Inspect(fn.Decl.Body, func(x ast.Node) bool {
+		if ifs, ok := x.(*ast.IfStmt); ok && branch == nil {
+			s := exprStr(ifs.Cond)
+			if strings.Contains(s, "isFloat(fromType)") && strings.Contains(s, "isInteger(toType)") {
+				branch = ifs
+			}
+		}
+		return true
+	})
+	if !r.Anchor(rule, branch != nil, "emitCast: if g.isFloat(fromType) && g.isInteger(toType)") {
+		return
+	}
+	nT := 0
+	hits := mustFlow(c.CFGOfBody(branch.Body), FlowSpec{
+		Gate: func(n ast.Node) bool {
+			return nodeCalls(info, n, wrap.Obj) != nil || nodeCalls(info, n, f2u.Obj) != nil
+		},
+		EdgeGate: func(b *cfg.Block, succ int) bool {
+			cond := condOf(b)
+			if cond == nil || succ != 1 {
+				return false
+			}
+			s := exprStr(cond)
+			return strings.Contains(s, "8") && strings.Contains(s, "16") && !strings.Contains(s, "!=")
+		},
+		Target: func(n ast.Node) bool {
+			as, ok := n.(*ast.AssignStmt)
+			if !ok || len(as.Lhs) != 1 {
+				return false
+			}
+			ix, ok := as.Lhs[0].(*ast.IndexExpr)
+			if ok && strings.HasSuffix(exprStr(ix.X), ".valueTypes") {
+				nT++
+				return true
+			}
+			return false
+		},
+	})
+	where := c.pos(branch.Pos())
+	if len(hits) > 0 && hits[0].Pos.IsValid() {
+		where = c.pos(hits[0].Pos)
+	}
+	r.Check(nT > 0 && len(hits) == 0, rule, fn.Name(), "float -> i8/i16 is reduced to the declared width", where,
+		"a float is converted to a word and called an i8 / i16 without reducing it: `(300.0 as i8) as i32` is 300 natively and 44 on wasm")
+}
